@@ -10,12 +10,14 @@ structure Stats where
   specfail : Nat := 0
   bad : Nat := 0
   tags : Std.HashMap String Nat := {}
-  shown : Nat := 0
+  shownD : Nat := 0
+  clsCount : Std.HashMap String Nat := {}
   seen : Std.HashSet UInt64 := {}
   distinct : Nat := 0
   first : Nat := 0
 
 def maxShown : Nat := 2000
+def maxShownPerClass : Nat := 200
 
 partial def loop (h : IO.FS.Stream) (st : Stats) (lineno : Nat) : IO Stats := do
   let line ← h.getLine
@@ -49,13 +51,15 @@ partial def loop (h : IO.FS.Stream) (st : Stats) (lineno : Nat) : IO Stats := do
             if !st.seen.contains hsh then
               st := { st with seen := st.seen.insert hsh, distinct := st.distinct + 1 }
           if isDiff then
-            if st.shown < maxShown then
+            if st.shownD < maxShown then
               IO.println s!"D {lineno} model={r.model} | {l}"
-            st := { st with diff := st.diff + 1, shown := st.shown + 1 }
+            st := { st with diff := st.diff + 1, shownD := st.shownD + 1 }
           if !r.specOk then
-            if st.shown < maxShown then
-              IO.println s!"S {lineno} class={if r.cls.isEmpty then "-" else r.cls} modeldiff={isDiff} reason={r.reason} | {l}"
-            st := { st with specfail := st.specfail + 1, shown := st.shown + 1 }
+            let c := if r.cls.isEmpty then "-" else r.cls
+            let k := st.clsCount.getD c 0
+            if k < maxShownPerClass then
+              IO.println s!"S {lineno} class={c} modeldiff={isDiff} reason={r.reason} | {l}"
+            st := { st with specfail := st.specfail + 1, clsCount := st.clsCount.insert c (k + 1) }
           if !isDiff && r.specOk then st := { st with ok := st.ok + 1 }
           loop h st (lineno + 1)
     | [] => loop h { st with total := st.total + 1, bad := st.bad + 1 } (lineno + 1)
@@ -69,5 +73,7 @@ def main (args : List String) : IO UInt32 := do
   let st ← loop h {} 1
   for (t, c) in st.tags.toList do
     IO.println s!"T {t} {c}"
+  for (c, k) in st.clsCount.toList do
+    IO.println s!"C {c} {k}"
   IO.println s!"N total={st.total} ok={st.ok} diff={st.diff} specfail={st.specfail} bad={st.bad} distinct={st.distinct}"
   return 0
